@@ -79,6 +79,8 @@ sh("git checkout -q -- . && git clean -fdq -e target", cwd=wt)
 # now the registered check against /repo itself
 rc, out = sh(f"git -C /repo apply {patch}")
 assert rc == 0, out
+_ev = f"/verif/evidence/{prop}.json"
+_saved = open(_ev).read() if os.path.exists(_ev) else None
 try:
     t = time.time()
     rc, out = sh(f"./check {prop} --tier quick", cwd="/verif", timeout=1500)
@@ -94,6 +96,9 @@ try:
                 shutil.copy(rp, f"/verif/seeded/{prop}-{letter}/replay.json")
 finally:
     sh("git -C /repo checkout -- .")
+    # the evidence file describes the unchanged tree: a run against a seeded defect must not replace it
+    if _saved is not None:
+        open(_ev, "w").write(_saved)
 st = subprocess.run("git -C /repo status --short", shell=True, capture_output=True, text=True).stdout.strip()
 assert st == "", "repo not clean: " + st
 dst = f"/verif/seeded/{prop}-{letter}"
